@@ -123,6 +123,31 @@ PROPS = {
                         "replacement of invalid bytes; the Windows implementation."),
         "trusted_base": [VERUS_TRUST, "std::io::BufRead contract (model Reader in unit read_line)", "memchr_rs::memchr behaves as documented", "std::io::Stdin is a process-wide BufReader (documented)"],
     },
+    "C02": {
+        "level": "other",
+        "design_ref": "DESIGN.md section 5, C02",
+        "summary": ("Memory reclamation, store primitives: ArenaCow::promote, Value::clone_into (strings), Runtime::overwrite_slot and "
+                    "Value::return_to_pool are checked by Kani against contracts over content and residence -- same content, not in the frame "
+                    "arena, never a view of a pool slot it does not own, old slot returned exactly once -- with the string pool present through "
+                    "its contracts (dealloc havocs the slot's bytes, so a use-after-return is visible) and the frame poisoned after each call; "
+                    "Arena::reset / contains_ptr and the PoolSet contracts they rest on are proved under C11/C12."),
+        "not_covered": ("that every store site of the 1900-line evaluator goes through one of these primitives with the right mark (a whole-"
+                        "evaluator frame argument); arrays and host values (array storage read back from arena memory is outside CBMC's "
+                        "reach: > 5 min per harness); relocate_return_value; loop/call reset points. Known open defects there are listed in "
+                        "DESIGN.md section 6 (returning a host value; growing a parameter array inside a loop in the callee)."),
+        "trusted_base": [KANI_TRUST, OS_TRUST, "PoolSet::{alloc_str, contains, dealloc} used through contract stubs whose clauses are proved for the real PoolSet under C12"],
+    },
+    "C05": {
+        "level": "other",
+        "design_ref": "DESIGN.md section 5, C05",
+        "summary": ("Arrays are values, element-string half: Value::clone_into never lets a copy share bytes with an owned string of the "
+                    "original (checked for frame-, persistent- and pool-resident strings, with the owner's storage recycled afterwards), "
+                    "which is what array elements are cloned with; ArenaCow::promote gives stored elements their own slot (shared with C02)."),
+        "not_covered": ("separation of the array storage itself (Vec buffers) under clone_into/promote, nested index writes through "
+                        "assign_index / get_mutable_array / flatten_index_target, push/pop/reverse, call and return paths: values read back "
+                        "from arena memory make CBMC explore every Value variant and do not terminate (> 5 min per harness)."),
+        "trusted_base": [KANI_TRUST, OS_TRUST, "PoolSet contracts (C12)"],
+    },
 }
 
 
